@@ -99,6 +99,9 @@ func c04Callback(r *core.Run, idx int, rng *rand.Rand) {
 	}
 	if !call.D.Success() {
 		r.Count("not_success", 1)
+		if call.D.Kind == "redirect" && call.D.Status == 302 && call.D.Msg == nil {
+			viol(call, "redirect_reply_unparseable", "the Location sent carries no recoverable SAMLResponse parameter (RFC 3986 query split): "+clipS(call.D.Location, 300)+" "+call.D.Err)
+		}
 		return
 	}
 	r.Count("success_replies", 1)
